@@ -13,6 +13,7 @@ type ObsC07 struct {
 	// filter whose bind is still to come. A scheduling attempt is filter + bind: the size in force when the filter
 	// approved the pod still counts when its bind allocates.
 	podIPSync     bool
+	opIdx         int
 	pendMax       map[string]int
 	pendUndef     map[string]bool
 	noOutstanding map[string]bool
@@ -139,15 +140,18 @@ func (o *ObsC07) check(x *Exec) *vcore.Failure {
 }
 
 func (o *ObsC07) AfterStep(x *Exec) *vcore.Failure {
-	if !o.started {
+	if !o.started || o.opIdx != x.OpIndex {
 		o.begin(x, x.LastQuiescent)
+		o.opIdx = x.OpIndex
 	}
 	return o.check(x)
 }
 
 func (o *ObsC07) AfterOp(x *Exec, i int, op Op, res *OpResult) *vcore.Failure {
-	if !o.started {
+	if !o.started || o.opIdx != x.OpIndex {
+		// (an episode of several operations ends without resetting started: the next operation starts a new window)
 		o.begin(x, x.LastQuiescent)
+		o.opIdx = x.OpIndex
 	}
 	if op.K == "poolapi" && strings.Contains(res.Info, `"preAllocateIP":true`) {
 		o.PreAlloc = true
